@@ -83,6 +83,10 @@ def plan(pid, tier):
     for k in kinds:
       for k2 in second:
         pairs.append(("basic", "one", k + "+" + k2, 2, "micro", "micro", want, 0, 20.0, None))
+    if pid in ("C01", "C02", "C03"):
+      # stored doc actions replayed as they are (redo path), one of them naming a row twice
+      for fx in ("basic", "types"):
+        shards.append((fx, "one", "RawDup", 1, "small", "small", want, 0, None, None))
     if pid == "C08":
       # every schema-affecting first action followed by an action that always raises: the rollback must restore the schema
       for fx in ("basic", "twoway", "summary", "cascade"):
@@ -90,6 +94,9 @@ def plan(pid, tier):
           shards.append((fx, "one", k + "+Fail", 2, "small", "micro", want, 0, 30.0, None))
     shards = pairs + shards
   else:
+    if pid in ("C01", "C02", "C03"):
+      for fx in ("basic", "types", "lookup", "summary"):
+        shards.append((fx, "one", "RawDup", 1, "full", "full", want, 0, None, None))
     if pid == "C08":
       for fx in ("basic", "twoway", "summary", "cascade", "types", "views", "lookup"):
         for k in F.ALL_KINDS:
